@@ -379,7 +379,7 @@ theorem c02_hoisted_args_counterexample :
   · rw [c02_replay genFacts c02_facts_wf (toyPrim plain) plain_ok popE popO hrec, href]
     rfl
   · simp only [tEvalHoisted, popCells, List.map, seqRun, argVal_tt_T]
-    simp [argVal_lit, argVal_cargs, seqRun, stepsEval, valsOf, applyAll, stepOp, callChar,
+    simp [argVal_lit, argVal_cargs, seqRun, stepsEval, valsOf, applyAll, stepOp, Generated.tArgValExempt,
       applyBranch, dispatchOf, genFacts, Generated.tDispatch, Kind.ofString, kindNames, guarded,
       guardE, toyPrim, plain]
 
@@ -400,7 +400,7 @@ theorem c02_wf_counterexample :
   · have h : (C02.Obj.tt [.root "T", .opc "#", .lit (TV.n 2)]) =
         .tt (.root "T" :: flatOfCells [("#", .lit (.n 2))]) := by simp [flatOfCells]
     rw [h]
-    simp [tEval, argVal_tt_T, stepsEval, argVal_lit, stepOp, callChar, applyBranch, dispatchOf,
+    simp [tEval, argVal_tt_T, stepsEval, argVal_lit, stepOp, Generated.tArgValExempt, applyBranch, dispatchOf,
       droppedFacts, genFacts, Generated.tDispatch]
   · simp [refEval_texpr, refStep, arglessDunders, meaning, meaningTable, foldSteps, pyApply,
       toyPrim, refArg]
@@ -443,7 +443,7 @@ theorem c02_callee_eval_counterexample :
   refine ⟨dbl_record leaky, dbl_ref leaky, ?_⟩
   simp only [dblO]
   simp [tEval, argVal_tt_T, stepsEval, argVal_lit, argVal_cargs, valsOf, valOfRun, valOfRes, asVal,
-    seqRun, stepOp, callChar, applyBranch, dispatchOf, genFacts, Generated.tDispatch,
+    seqRun, stepOp, Generated.tArgValExempt, applyBranch, dispatchOf, genFacts, Generated.tDispatch,
     Kind.ofString, kindNames, guarded, guardE, toyPrim, leaky, caughtBy]
 
 /-- **Call arguments are passed by reference.**  The identity function called with
